@@ -41,6 +41,7 @@ type NetflowV5 struct {
 	addr    string
 	workers int
 	stop    bool
+	done    chan struct{}
 	stats   NetflowV5Stats
 	pool    chan chan struct{}
 }
@@ -79,6 +80,7 @@ func NewNetflowV5() *NetflowV5 {
 		port:    opts.NetflowV5Port,
 		addr:    opts.NetflowV5Addr,
 		workers: opts.NetflowV5Workers,
+		done:    make(chan struct{}),
 	}
 }
 
@@ -147,6 +149,9 @@ func (i *NetflowV5) run() {
 		netflowV5UDPCh <- NetflowV5UDPMsg{raddr, b[:n]}
 	}
 
+	// no datagram is handed over any more
+	close(i.done)
+
 }
 
 func (i *NetflowV5) shutdown() {
@@ -159,6 +164,8 @@ func (i *NetflowV5) shutdown() {
 	i.stop = true
 	logger.Println("stopping netflow v5 service gracefully ...")
 	time.Sleep(1 * time.Second)
+	// the receive loop may still be handing over a datagram: the queue is closed only after it has ended
+	<-i.done
 
 	// logging and close UDP channel
 	logger.Println("netflow v5 has been shutdown")
